@@ -899,6 +899,10 @@ def tb_line(data, config="base"):
             bs += ",%s.%s.0.1" % (hx("restraint"), hx("harmonic"))
     elif config == "hist":
         bs = "%s.%s.0.1.k%s+o%d" % (hx("histogram"), hx("histogram"), hx("grid"), NBINS)
+    elif config == "sabf":
+        # a shared ABF announces `sharedData on` in its configuration string: local and last-shared grids are mandatory
+        lay = "+".join("k%s+o%d" % (hx(k), NBINS) for k in ("samples", "gradient", "local_samples", "local_gradient", "last_samples", "last_gradient"))
+        bs = "%s.%s.0.1.%s" % (hx("abf"), hx("abf"), lay)
     elif config == "grid":
         # colvar_grid::read_restart on a memory_stream: read_block("grid_parameters") = the key and one string, then the values
         g = "k%s+k%s+a0+o%d" % ("%s", hx("grid_parameters"), NBINS)
